@@ -79,11 +79,19 @@ def run_case(idx, rng, tier, res):
     c = compiled.Compiled(g, texts, load_texts=gt, genTexts=gt)
     replay = {'texts': texts, 'genTexts': gt, 'profile': 'stress' if stress else 'clean'}
     kw_mods = set(m.name for m in g.modules if any(keyword.iskeyword(d.name) for d in m.decls))
+    kw_reach = set(kw_mods)
+    changed = True
+    while changed:
+        changed = False
+        for m in g.modules:
+            if m.name not in kw_reach and any(mod in kw_reach for mod, syms in m.imports):
+                kw_reach.add(m.name)
+                changed = True
     for b, n, st, err in c.status_problems():
         cause = 'other'
-        mm = re.search(r'No generated code for symbol pysmi_(\w+)|no symbol "(\w+)" in module|'
-                       r'for defval "(\w+)"', str(err))
-        if mm and keyword.iskeyword(mm.group(1) or mm.group(2) or mm.group(3)):
+        # mechanism, not message wording: the failing module defines a keyword-named symbol or reaches
+        # one through its imports (OID parents, DEFVAL labels, list members)
+        if n in kw_reach:
             cause = 'keyword_prefix_mismatch'
         elif st == 'unprocessed':
             cause = 'blocked_by_other_module'
